@@ -186,10 +186,14 @@ func (c *Ctx) Set(k string, v interface{}) { c.mu.Lock(); c.extra[k] = v; c.mu.U
 
 // Fail reports a mismatch between the specification's expectation and the real code.
 // At most 5 samples per (site, aspect) are written out; all are counted.
-func (c *Ctx) Fail(site, aspect, detail string, sample interface{}) { c.fail(site, aspect, detail, sample, false) }
+func (c *Ctx) Fail(site, aspect, detail string, sample interface{}) {
+	c.fail(site, aspect, detail, sample, false)
+}
 
 // Drift reports a mismatch on a D-tagged (model detail) assertion: never a violation.
-func (c *Ctx) Drift(site, aspect, detail string, sample interface{}) { c.fail(site, aspect, detail, sample, true) }
+func (c *Ctx) Drift(site, aspect, detail string, sample interface{}) {
+	c.fail(site, aspect, detail, sample, true)
+}
 
 func (c *Ctx) fail(site, aspect, detail string, sample interface{}, drift bool) {
 	c.mu.Lock()
